@@ -723,5 +723,242 @@ example :
     isLocalhostOf (localhostAliases recs) (bs "sl-6666") = false := by
   with_unfolding_all decide
 
+/-! ## I. The hosts file is read completely, or the proxy does not start
+
+`hpLocalhostOf src` is what `NewHTTPProxy` makes of the machine's hosts file: an error (the proxy does
+not start) or the instance's `hp.localhost`. The library that decodes the file hands back an EMPTY file
+together with the error on the first line it cannot read, wherever that line is; `looseRecords` is what
+a reader that goes line by line and skips such lines sees — what the machine's resolver makes of the
+file, and so the yardstick for "every name the hosts file gives to a loopback address". -/
+
+/-- `Decode` is all or nothing: it succeeds exactly when every line can be read and then yields the
+    records of all lines; one unreadable line anywhere makes it fail -/
+theorem c04_hosts_decode_all_or_nothing (t : Bytes) :
+    (∀ recs, decodeHosts t = .ok recs ↔
+      (∀ l ∈ hostsLines t, ∃ r, readHostsLine hostsMaxToken l = .ok r) ∧
+        recs = looseRecords hostsMaxToken (hostsLines t)) ∧
+    (∀ l ∈ hostsLines t, ∀ e, readHostsLine hostsMaxToken l = .error e → ∃ e', decodeHosts t = .error e') :=
+  ⟨fun recs => decodeHostsLines_ok_iff _ _ recs, fun l hl e he => decodeHostsLines_error_of_mem _ _ l e hl he⟩
+
+/-- for every hosts-file text: construction fails, or the instance's localhost names hold every name of
+    every loopback record of the text (lower-cased) and the classifier says yes to each of them in every
+    letter case — no loopback alias of the hosts file is left out of a proxy that starts -/
+theorem c04_hosts_file_rejected_or_complete (t : Bytes) :
+    (∃ e, hpLocalhostOf (.text t) = .error e) ∨
+    (∃ names, hpLocalhostOf (.text t) = .ok names ∧
+      ∀ r ∈ looseRecords hostsMaxToken (hostsLines t), isLoopbackLiteral r.ip = true → ∀ n ∈ r.names,
+        lower n ∈ names ∧ ∀ host, lower host = lower n → isLocalhostNames names host = true) := by
+  cases hd : decodeHostsLines hostsMaxToken (hostsLines t) with
+  | error e => exact Or.inl ⟨e, hpLocalhostOf_text_error hd⟩
+  | ok recs =>
+    refine Or.inr ⟨_, hpLocalhostOf_text_ok hd, ?_⟩
+    intro r hr hlb n hn
+    have hrecs := ((decodeHostsLines_ok_iff _ _ recs).mp hd).2
+    have ha : n ∈ localhostAliases recs := (mem_localhostAliases recs n).mpr ⟨r, hrecs ▸ hr, hlb, hn⟩
+    exact ⟨(mem_hpLocalhost _ _).mpr (Or.inr ⟨n, ha, rfl⟩), fun host hh => c04_alias_is_localhost ha host hh⟩
+
+/-- a hosts file that cannot be opened or read: the proxy does not start -/
+theorem c04_hosts_file_missing_or_unreadable_rejected :
+    hpLocalhostOf .missing = .error .cannotOpen ∧ hpLocalhostOf .unreadable = .error .cannotRead := ⟨rfl, rfl⟩
+
+/-- a proxy that started is exact about the hosts file: a host is localhost exactly when it is a built-in
+    name, a name of a loopback record of the file (any letter case), or a loopback / unspecified literal;
+    names of other records are not made localhost -/
+theorem c04_hosts_file_constructed_iff {t : Bytes} {names : List Bytes} (hc : hpLocalhostOf (.text t) = .ok names)
+    (host : Bytes) :
+    isLocalhostNames names host = true ↔
+      lower host ∈ builtinLocalhost ∨
+      (∃ r ∈ looseRecords hostsMaxToken (hostsLines t), isLoopbackLiteral r.ip = true ∧ ∃ n ∈ r.names, lower n = lower host) ∨
+      isLoopbackLiteral (lower host) = true ∨ isUnspecifiedLiteral (lower host) = true := by
+  cases hd : decodeHostsLines hostsMaxToken (hostsLines t) with
+  | error e => rw [hpLocalhostOf_text_error hd] at hc; cases hc
+  | ok recs =>
+    rw [hpLocalhostOf_text_ok hd] at hc
+    have hrecs := ((decodeHostsLines_ok_iff _ _ recs).mp hd).2
+    cases hc
+    rw [← hrecs]
+    exact c04_hosts_file_iff recs host
+
+/-- with localhost denial on, a request or CONNECT for a loopback alias of the hosts file — any record,
+    any letter case — is refused by an instance that started, and nothing happens upstream -/
+theorem c04_hosts_file_constructed_denies_aliases {cfg : Cfg} {t : Bytes} {names : List Bytes}
+    (hc : hpLocalhostOf (.text t) = .ok names) (hn : cfg.localhostNames = names) (hd : cfg.denyLocalhost = true)
+    {r : HostsRecord} (hr : r ∈ looseRecords hostsMaxToken (hostsLines t)) (hlb : isLoopbackLiteral r.ip = true)
+    {n : Bytes} (hnm : n ∈ r.names) (ctx : Ctx) {it : ConnItem} {host pa : Bytes}
+    (hv : itemView it = some (host, pa)) (hh : lower host = lower n) :
+    Control.fails cfg host pa .localhost = true ∧
+    ∃ c : Control, ItemOutcome.refusedWith (processItem cfg ctx it) c.refusal = true ∧ itemActions cfg ctx it = [] := by
+  have hl : isLocalhostNames names host = true := by
+    rcases c04_hosts_file_rejected_or_complete t with ⟨e, he⟩ | ⟨names', hn', hall⟩
+    · rw [hc] at he; cases he
+    · rw [hc] at hn'; cases hn'
+      exact (hall r hr hlb n hnm).2 host hh
+  have hf : Control.fails cfg host pa .localhost = true := by
+    unfold Control.fails Req.isLocalhost
+    rw [hd, hn]; exact hl
+  obtain ⟨c, hcf⟩ := (c04_some_control_fails_iff cfg host pa).mp ⟨_, hf⟩
+  exact ⟨hf, c, c04_failing_item_refused_and_silent ctx hv hcf⟩
+
+/-- which lines cannot be read: a line of `maxTok` bytes or more; or a line that is neither blank nor a
+    comment and has fewer than two fields (an address without a name, a lone name) or whose first field
+    is not an address -/
+theorem c04_hosts_line_rejected_iff (m : Nat) (raw : Bytes) :
+    (∃ e, readHostsLine m raw = .error e) ↔
+      m ≤ raw.length ∨
+      (trimSpace raw ≠ [] ∧ (trimSpace raw).head? ≠ some 35 ∧
+        ((hostsFields (trimSpace raw)).length ≤ 1 ∨
+          ∃ a rest, hostsFields (trimSpace raw) = a :: rest ∧ hostsAddr a = none)) := by
+  unfold readHostsLine
+  by_cases hlen : raw.length ≥ m
+  · rw [if_pos hlen]
+    exact ⟨fun _ => Or.inl hlen, fun _ => ⟨_, rfl⟩⟩
+  · rw [if_neg hlen]
+    have hlen' : ¬ m ≤ raw.length := hlen
+    simp only [hlen', false_or]
+    cases ht : trimSpace raw with
+    | nil => simp
+    | cons c rest =>
+      by_cases hc : (c == 35) = true
+      · have : c = 35 := by simpa using hc
+        simp [this]
+      · have hc' : c ≠ 35 := by simpa using hc
+        simp only [hc, if_false, ne_eq, reduceCtorEq, not_false_eq_true, List.head?_cons, Option.some.injEq, hc', true_and]
+        cases hf : hostsFields (c :: rest) with
+        | nil => simp
+        | cons a fs =>
+          cases fs with
+          | nil => simp
+          | cons n ns =>
+            cases ha : hostsAddr a with
+            | none => simp [ha]
+            | some ip => simp [ha]
+
+/-- the unreadable line decides wherever it is: at the beginning, in the middle, at the end of the file —
+    next to whatever well-formed records — construction fails -/
+theorem c04_hosts_bad_line_anywhere_rejects (pre post l : Bytes) (e : HostsError)
+    (hnl : ∀ c ∈ l, (c == 10) = false) (hl : readHostsLine hostsMaxToken l = .error e) :
+    hpLocalhostOf (.text (l ++ 10 :: post)) = .error e ∧
+    (∃ e', hpLocalhostOf (.text (pre ++ 10 :: (l ++ 10 :: post))) = .error e') ∧
+    (∃ e', hpLocalhostOf (.text (pre ++ 10 :: l)) = .error e') := by
+  have key : ∀ t, l ∈ hostsLines t → ∃ e', hpLocalhostOf (.text t) = .error e' := by
+    intro t hm
+    obtain ⟨e', he'⟩ := decodeHostsLines_error_of_mem hostsMaxToken (hostsLines t) l e hm hl
+    exact ⟨e', hpLocalhostOf_text_error he'⟩
+  refine ⟨?_, key _ ?_, key _ ?_⟩
+  · apply hpLocalhostOf_text_error
+    rw [hostsLines_append_nl, hostsLines_of_no_nl l hnl]
+    have := decodeHostsLines_error_at hostsMaxToken [] (hostsLines post) l e (by simp) hl
+    simp only [List.nil_append] at this
+    rw [List.singleton_append, this]
+  · rw [hostsLines_append_nl, hostsLines_append_nl, hostsLines_of_no_nl l hnl]
+    simp
+  · rw [hostsLines_append_nl, hostsLines_of_no_nl l hnl]
+    simp
+
+/-- the first unreadable line decides the error (the lines before it were read — and are dropped) -/
+theorem c04_hosts_first_unreadable_line_decides (pre post l : Bytes) (e : HostsError)
+    (hnl : ∀ c ∈ l, (c == 10) = false)
+    (hpre : ∀ x ∈ hostsLines pre, ∃ r, readHostsLine hostsMaxToken x = .ok r)
+    (hl : readHostsLine hostsMaxToken l = .error e) :
+    hpLocalhostOf (.text (pre ++ 10 :: (l ++ 10 :: post))) = .error e := by
+  apply hpLocalhostOf_text_error
+  rw [hostsLines_append_nl, hostsLines_append_nl, hostsLines_of_no_nl l hnl, List.singleton_append,
+    decodeHostsLines_error_at hostsMaxToken _ _ l e hpre hl]
+
+/-- a file without records — empty, blank lines, comments only — is read, and the instance has the
+    built-in names only -/
+theorem c04_hosts_file_without_records (t : Bytes)
+    (h : ∀ l ∈ hostsLines t, l.length < hostsMaxToken ∧ (trimSpace l = [] ∨ (trimSpace l).head? = some 35)) :
+    hpLocalhostOf (.text t) = .ok builtinLocalhost := by
+  have hline : ∀ l ∈ hostsLines t, readHostsLine hostsMaxToken l = .ok none := by
+    intro l hm
+    obtain ⟨hlen, hk⟩ := h l hm
+    unfold readHostsLine
+    have : ¬ l.length ≥ hostsMaxToken := Nat.not_le.mpr hlen
+    simp only [this, if_false]
+    rcases hk with hk | hk
+    · rw [hk]
+    · cases ht : trimSpace l with
+      | nil => rfl
+      | cons c rest =>
+        rw [ht] at hk
+        have : c = 35 := by simpa using hk
+        simp [this]
+  have hloose : looseRecords hostsMaxToken (hostsLines t) = [] := by
+    unfold looseRecords
+    apply List.filterMap_eq_nil_iff.mpr
+    intro l hm
+    rw [hline l hm]
+  have hd : decodeHostsLines hostsMaxToken (hostsLines t) = .ok [] :=
+    (decodeHostsLines_ok_iff _ _ []).mpr ⟨fun l hm => ⟨none, hline l hm⟩, hloose.symm⟩
+  rw [hpLocalhostOf_text_ok hd]
+  rfl
+
+/-- the hypothesis is needed — the variant that tolerates the decode error and keeps "the aliases that
+    could be read" keeps nothing: a hosts file with three well-formed loopback records and one line that
+    has an address and no name (at the end; the same at the beginning) is rejected by `NewHTTPProxy`; the
+    tolerant constructor starts with the built-in names only and `devbox`, `ip6-localhost`, `ip6-loopback`
+    — loopback aliases of the file — are not localhost to it -/
+theorem c04_hosts_file_tolerated_error_witness :
+    let t := bs "127.0.0.1 localhost\n127.0.1.1 devbox\n::1 ip6-localhost ip6-loopback\n127.0.0.1\n"
+    let t' := bs "127.0.0.1\n127.0.1.1 devbox\n"
+    hpLocalhostOf (.text t) = .error .entry ∧ hpLocalhostOf (.text t') = .error .entry ∧
+    looseRecords hostsMaxToken (hostsLines t) =
+      [{ ip := bs "127.0.0.1", names := [bs "localhost"] }, { ip := bs "127.0.1.1", names := [bs "devbox"] },
+       { ip := bs "::1", names := [bs "ip6-localhost", bs "ip6-loopback"] }] ∧
+    hpLocalhostTolerating hostsMaxToken (.text t) = builtinLocalhost ∧
+    hpLocalhostTolerating hostsMaxToken (.text t') = builtinLocalhost ∧
+    isLocalhostNames (hpLocalhostTolerating hostsMaxToken (.text t)) (bs "devbox") = false ∧
+    isLocalhostNames (hpLocalhostTolerating hostsMaxToken (.text t)) (bs "IP6-Localhost") = false ∧
+    isLocalhostNames (hpLocalhostTolerating hostsMaxToken (.text t')) (bs "devbox") = false ∧
+    isLocalhostNames (hpLocalhostTolerating hostsMaxToken (.text t)) (bs "localhost") = true := by
+  with_unfolding_all decide
+
+-- the hypotheses of the two position theorems: an unreadable line without a line feed (what a VPN client leaves
+-- behind), well-formed loopback alias records before it; and a constructed instance for `…_constructed_…`
+example :
+    (∀ c ∈ bs "10.8.0.1", (c == 10) = false) ∧ readHostsLine hostsMaxToken (bs "10.8.0.1") = .error .entry ∧
+    decodeHosts (bs "127.0.0.1 localhost\n127.0.1.1 devbox") =
+      .ok [{ ip := bs "127.0.0.1", names := [bs "localhost"] }, { ip := bs "127.0.1.1", names := [bs "devbox"] }] ∧
+    hpLocalhostOf (.text (bs "127.0.0.1 localhost\n127.0.1.1 devbox\n10.8.0.1\n::1 ip6-localhost\n")) = .error .entry ∧
+    hpLocalhostOf (.text (bs "127.0.0.1 localhost\n127.0.1.1 DevBox\n10.8.0.1 vpn\n::1 ip6-localhost\n")) =
+      .ok [bs "localhost", bs "0.0.0.0", bs "::", bs "localhost", bs "devbox", bs "ip6-localhost"] := by
+  with_unfolding_all decide
+
+-- every kind of line the decoder rejects, and the shapes it accepts
+example :
+    readHostsLine hostsMaxToken (bs "127.0.0.1") = .error .entry ∧
+    readHostsLine hostsMaxToken (bs "devbox") = .error .entry ∧
+    readHostsLine hostsMaxToken (bs "  ::1\t \r") = .error .entry ∧
+    readHostsLine hostsMaxToken (bs "127.0.0.1.5 x") = .error .address ∧
+    readHostsLine hostsMaxToken (bs "300.1.1.1 x") = .error .address ∧
+    readHostsLine hostsMaxToken (bs "127.0.0.1:80 x") = .error .address ∧
+    readHostsLine hostsMaxToken (bs "[::1] x") = .error .address ∧
+    readHostsLine hostsMaxToken (bs "127.0.0.1/8 x") = .error .address ∧
+    readHostsLine hostsMaxToken (bs "::1% x") = .error .address ∧
+    readHostsLine hostsMaxToken (bs "127.0.0.1%lo x") = .error .address ∧
+    readHostsLine hostsMaxToken (bs "127.0.0.1#c x") = .error .address ∧
+    readHostsLine hostsMaxToken ([0xEF, 0xBB, 0xBF] ++ bs "127.0.0.1 localhost") = .error .address ∧
+    readHostsLine hostsMaxToken ([0xEF, 0xBB, 0xBF] ++ bs "# comment") = .error .address ∧
+    readHostsLine hostsMaxToken [0xEF, 0xBB, 0xBF] = .error .entry ∧
+    readHostsLine 24 (bs "127.0.0.1 a-very-long-name") = .error .tooLong ∧
+    readHostsLine 27 (bs "127.0.0.1 a-very-long-name") = .ok (some { ip := bs "127.0.0.1", names := [bs "a-very-long-name"] }) ∧
+    readHostsLine hostsMaxToken (bs "127.0.1.1 devbox Dev # c x\r") = .ok (some { ip := bs "127.0.1.1", names := [bs "devbox", bs "Dev"] }) ∧
+    readHostsLine hostsMaxToken (bs "::1%lo0 x") = .ok (some { ip := bs "::1", names := [bs "x"] }) ∧
+    readHostsLine hostsMaxToken (bs "127.0.0.1 # only a comment") = .ok (some { ip := bs "127.0.0.1", names := [] }) ∧
+    readHostsLine hostsMaxToken (bs "  # c") = .ok none ∧ readHostsLine hostsMaxToken (bs " \t\r") = .ok none := by
+  with_unfolding_all decide
+
+-- CRLF line ends, a last line without line feed, CR-only line ends (one long line to the decoder)
+example :
+    decodeHosts (bs "127.0.0.1 a\r\n::1 b\r\n") =
+      .ok [{ ip := bs "127.0.0.1", names := [bs "a"] }, { ip := bs "::1", names := [bs "b"] }] ∧
+    decodeHosts (bs "127.0.0.1 a\n10.0.0.5 c\n::1 b") =
+      .ok [{ ip := bs "127.0.0.1", names := [bs "a"] }, { ip := bs "10.0.0.5", names := [bs "c"] }, { ip := bs "::1", names := [bs "b"] }] ∧
+    decodeHosts (bs "127.0.0.1 a\r::1 b\r") = .ok [{ ip := bs "127.0.0.1", names := [bs "a", bs "::1", bs "b"] }] ∧
+    hpLocalhostOf (.text (bs "# only\n\n  # comments\n")) = .ok builtinLocalhost ∧ hpLocalhostOf (.text []) = .ok builtinLocalhost ∧
+    hpLocalhostOf (.text (bs "127.0.1.1 Zed\n")) = .ok [bs "localhost", bs "0.0.0.0", bs "::", bs "zed"] := by
+  with_unfolding_all decide
+
 end C04
 end FwdVerif
